@@ -201,6 +201,8 @@ def checkRouteSymmetry (c : Case) : CaseResult := Id.run do
         let va := !(routeHits sc ra)
         let vb := !(routeHits (F.actScene sc) rb)
         let ctx := fun (_ : Unit) => s!"sym {nat! l[0]!} {lab} pen={ratToString pen}: original route {routeStr ra} (obstacle-free={va}); route in the image scene {routeStr rb} (obstacle-free={vb}); image of the original route {routeStr img}"
+        if orth && isOrth ra != isOrth rb then
+          return { verdict := .specfail s!"route-symmetry: axis-parallelism changes under the symmetry (orthogonal connector, {if isOrth ra then "original axis-parallel, image not" else "image axis-parallel, original not"}); {ctx ()}" }
         if orth then
           let ca := orthCost pen ra
           let cb := orthCost pen rb
@@ -265,7 +267,27 @@ def run (_args : List String) : IO UInt32 :=
     else if c.tag == "removeoverlaps-coincident" then checkTwice c "not reproducible (removeoverlaps, coincident centres)"
     else if c.tag == "layout-twice" then checkLayoutTwice c
     else if c.tag == "route-translate" || c.tag == "route-translate-orth" then checkRouteTranslate c
-    else if c.tag == "route-symmetry" then checkRouteSymmetry c
+    else if c.tag == "route-symmetry" || c.tag == "route-symmetry-dirs" then checkRouteSymmetry c
+    else if c.tag == "route-symmetry-dirs-any" then
+      -- arbitrary direction restrictions: the unchanged library is not symmetric there (U-turns at restricted ends,
+      -- several pins at one position, restricted ends in line with shape edges …); asymmetries are COUNTED by kind,
+      -- not alarmed (see LEVEL_NOTE of check/props/C20.py)
+      let r := checkRouteSymmetry c
+      match r.verdict with
+      | .specfail m =>
+        let kind := if (m.splitOn "does not join the image endpoints").length > 1 then "finding.dirs-any.no-path-in-one-frame"
+                    else if (m.splitOn "axis-parallelism").length > 1 then "finding.dirs-any.axis-parallelism"
+                    else "finding.dirs-any.cost-asymmetry"
+        -- which connector: "… sym <n> route<i> …"; is its restricted end a pin or a free end?
+        let ci := match (m.splitOn "sym ")[1]? with
+          | some rest => nat! (((rest.splitOn " ")[1]?.getD "route0").drop 5).toString
+          | none => 0
+        let cd := (c.get "cdir").find? (fun l => l.size ≥ 5 && nat! l[0]! == ci)
+        let what := match cd with
+          | some l => if l[3]! != "-1" || l[4]! != "-1" then ".pin" else ".free-end"
+          | none => ".unrestricted-connector"
+        { verdict := .ok, nontrivial := true, stats := [(kind ++ what, 1), ("finding.dirs-any", 1)] }
+      | _ => r
     else if c.tag == "vpsc-translate" then checkVpscFrame c true
     else if c.tag == "vpsc-permute" then checkVpscFrame c false
     else { verdict := .diverge s!"unknown case tag {c.tag}" }) (maxSamples := 4)
